@@ -301,6 +301,10 @@ class ConsumerMdib(mdibbase.MdibBase):
                     raise RuntimeError(msg)
 
     def _can_accept_mdib_version(self, new_mdib_version: int, log_prefix: str) -> bool:
+        if self._state == ConsumerMdibState.invalid:
+            # another notification invalidated the mdib (sequence id or instance id changed) while this one was
+            # waiting for the mdib lock: no updates until the application reloads
+            return False
         if self.MDIB_VERSION_CHECK_DISABLED:
             return True
         # log deviations from expected mdib version
